@@ -6,6 +6,8 @@ TECH = 'contract-based deductive verification: clang AST of /repo lowered to C e
 NOTE = ('Trusted: clang 14 AST, tools/cxx2c.py lowering (classes->structs, refs->pointers, RAII dtors explicit), CBMC 6.11 + DFCC + MiniSat, '
         'callback/logger stubs as the model of user code, bindings between symbolic constants checked on the witness only. See evidence assumptions.')
 CLAIMED = {
+ 'C13': dict(text='Proof for every stream capacity 1..255, every cursor, every field width 1..32 (three Item types lowered separately) and every value: write<N> advances the cursor by exactly N, alters only the bits of its own field, keeps bits past the cursor zero; read<N> returns exactly the bits at the cursor; constructors, buffer clear/==/!=; bitWidth() for every 32-bit argument and its sufficiency for state counts 1..255 (lemma over the contract). Chunk loops unwound 6x with unwinding assertions (complete by field width). Sequences follow by induction from the frame clauses.',
+             ref='4 (C13)'),
  'C20': dict(text='Proof, for every capacity 1..255 (symbolic) and every index/bit (ghost index): per-operation postconditions of BitArrayT / StaticArrayT / DynamicArrayT against the set / array model, frame clauses (an operation on one index does not disturb another), padding-bits invariant; byte loops closed by loop contracts. Histories follow by induction over operations.',
              ref='4 (C20)'),
 }
